@@ -626,6 +626,76 @@ func appliesSource(p *core.Prog, r *core.Report, na *nilAn) {
 	r.Count("applies_dispatch_sites", nD)
 	r.Floor("applies_dispatch_sites", 4)
 	// (2) own keywords
+	fallbackReads := map[string][]string{}
+	defer func() {
+		// (3) a fallback on the source's keyword is only sound where the source IS the definition the group was built
+		// from. A dispatcher that builds its groups from one definition (i.items) and passes another as source (i.root,
+		// the enclosing parameter or header) makes a group with an empty keyword take the enclosing definition's:
+		// {type: array, format: date, items: {type: string}} judges the items with the format of the array.
+		for _, f := range p.Funcs {
+			if f.Parent() != nil || f.Signature.Recv() == nil {
+				continue
+			}
+			rt := core.NamedOf(f.Signature.Recv().Type())
+			if rt == nil {
+				continue
+			}
+			core.EachInstr(f, func(i ssa.Instruction) {
+				c, ok := i.(*ssa.Call)
+				if !ok || !c.Call.IsInvoke() || c.Call.Method.Name() != "Applies" {
+					return
+				}
+				srcPath, okS := core.StablePath(c.Call.Args[0])
+				if !okS {
+					return
+				}
+				for T, flds := range fallbackReads {
+					// where this dispatcher's type builds its T group
+					for _, m := range p.Funcs {
+						if m.Parent() != nil || m.Signature.Recv() == nil || core.NamedOf(m.Signature.Recv().Type()) != rt {
+							continue
+						}
+						core.EachInstr(m, func(j ssa.Instruction) {
+							cc, ok := j.(*ssa.Call)
+							if !ok {
+								return
+							}
+							g := core.StaticCallee(cc)
+							if g == nil || !strings.EqualFold(g.Name(), "new"+T) {
+								return
+							}
+							for _, a := range cc.Call.Args {
+								ap, okA := core.StablePath(a)
+								if !okA {
+									continue
+								}
+								for _, fld := range flds {
+									// the field read off the source may be the embedded struct that holds the keyword
+									if !strings.HasSuffix(ap, "."+fld) && !strings.Contains(ap, "."+fld+".") {
+										continue
+									}
+									key := rt.Obj().Name() + ":" + T + ":fallback:" + ap[strings.LastIndex(ap, ".")+1:]
+									// same definition: the keyword path extends the source path (receiver variable names differ
+									// between methods: compare from the first field on)
+									tail := func(s string) string {
+										if k := strings.Index(s, "."); k >= 0 {
+											return s[k:]
+										}
+										return s
+									}
+									if strings.HasPrefix(tail(ap), tail(srcPath)+".") {
+										r.OK(rule, key, p.Pos(c.Pos()), "the source handed to Applies is the definition the group's own "+fld+" was taken from")
+									} else {
+										r.Bad(rule, key, p.Pos(c.Pos()), fmt.Sprintf("%s builds its %s from %s but hands %s to Applies as the source, and Applies of %s falls back to the source's keyword when its own is empty: a nested definition without the keyword is judged with that of the enclosing parameter or header — {type: array, format: date, items: {type: string, default: \"abc\"}} reports the item as an invalid date", rt.Obj().Name(), T, ap, srcPath, T))
+									}
+								}
+							}
+						})
+					}
+				}
+			})
+		}
+	}()
 	for _, af := range na.implsByName["Applies"] {
 		if len(af.Params) != 3 {
 			continue
@@ -673,6 +743,7 @@ func appliesSource(p *core.Prog, r *core.Report, na *nilAn) {
 						}
 					}
 					if fallback {
+						fallbackReads[T] = append(fallbackReads[T], fld)
 						continue
 					}
 					bad = true
